@@ -222,7 +222,7 @@ func runR201(c *core.Ctx) {
 					case "os":
 						kind = destructiveOS[f.Name()]
 					case "io/ioutil":
-						if f.Name() == "WriteFile" {
+						if core.NameOf(f) == "WriteFile" {
 							kind = "path0"
 						}
 					}
@@ -243,7 +243,7 @@ func runR201(c *core.Ctx) {
 						return true
 					}
 					stmt := core.EnclosingStmt(par, call)
-					if f.Name() == "Remove" {
+					if core.NameOf(f) == "Remove" {
 						// row: temp
 						if tcall, ok := core.Unparen(arg).(*ast.CallExpr); ok {
 							if sel, ok := core.Unparen(tcall.Fun).(*ast.SelectorExpr); ok && sel.Sel.Name == "Name" {
@@ -422,7 +422,7 @@ func runR203(c *core.Ctx) {
 			}
 			f := core.Callee(inf, call)
 			if f != nil && f.Pkg() != nil && (f.Pkg().Path() == "os" || f.Pkg().Path() == "io/ioutil") {
-				if f.Name() != "Stat" && f.Name() != "IsNotExist" && f.Name() != "Lstat" {
+				if core.NameOf(f) != "Stat" && core.NameOf(f) != "IsNotExist" && core.NameOf(f) != "Lstat" {
 					bad = f.FullName()
 				}
 			}
